@@ -35,7 +35,7 @@ var dims = map[string]int{
 	"union3": 3, "diff3": 3, "isect3": 3, "cut3": 3, "xform3": 3, "rtv3": 3, "scale3": 3, "nuscale3": 3,
 	"offset3": 3, "shell3": 3, "elong3": 3, "array3": 3, "rotcopy3": 3, "rotunion3": 3,
 	"extrude": 3, "twist": 3, "scaleext": 3, "scaletwist": 3, "extround": 3, "loft": 3,
-	"revolve": 3, "revolvetheta": 3, "screw": 3,
+	"revolve": 3, "revolvetheta": 3, "screw": 3, "multi3": 3, "lineof3": 3, "orient3": 3,
 	// 2D leaves
 	"circle": 2, "box2": 2, "line2": 2, "poly": 2,
 	// 2D special leaves (profiles)
@@ -44,7 +44,7 @@ var dims = map[string]int{
 	// 2D combinators
 	"union2": 2, "diff2": 2, "isect2": 2, "cut2": 2, "xform2": 2, "scale2": 2, "nuscale2": 2,
 	"offset2": 2, "elong2": 2, "array2": 2, "rotcopy2": 2, "rotunion2": 2, "slice2": 2,
-	"cache2": 2, "center2": 2, "centerscale2": 2,
+	"cache2": 2, "center2": 2, "centerscale2": 2, "multi2": 2, "lineof2": 2,
 }
 
 // IsLeaf reports whether the node has no operands.
